@@ -588,13 +588,23 @@ func drive(env *fw.Env, b fw.Behaviour) *fw.Trace {
 	// are n ticks apart in the model is then never LESS than n ticks, so exact model boundaries
 	// ("the bucket holds exactly one token again") fall on the same side in reality.
 	maxOff := time.Duration(0)
+	budget := opBudget
+	timed := false
+	for _, st := range beh.S {
+		timed = timed || st.A == "Tick" || st.A == "Idle"
+	}
+	if !timed {
+		// nothing in the history depends on a tick boundary, no expectation depends on how long the steps took;
+		// the judge works on the measured brackets with its own margins whatever the load
+		budget = time.Hour
+	}
 	checkBudget := func(i int) {
 		d := time.Since(tickStart())
 		if d > maxOff {
 			maxOff = d
 		}
-		if d > opBudget && overrun == "" {
-			overrun = fmt.Sprintf("step %d ended %v into its tick (budget %v)", i, d.Round(time.Millisecond), opBudget)
+		if d > budget && overrun == "" {
+			overrun = fmt.Sprintf("step %d ended %v into its tick (budget %v)", i, d.Round(time.Millisecond), budget)
 		}
 	}
 	unreal := func(note string) *fw.Trace {
@@ -1485,17 +1495,17 @@ func main() {
 				rate.Consts["MAXADM"] = "8"
 				recycle := mcJob("mc:recycle", one, `{"Bad", "Good", "Query", "Tick", "Clean"}`, "TRUE", fixAll, strict, tm{2, 3, 2, 2, 2})
 				recycle.Consts["IPS"] = `{"a", "b"}` // two addresses: released failure records belong to nobody
+				// the quick tier merges sub-systems whose state graphs are small into one TLC run each (a JVM start
+				// costs more than these graphs); the thorough tier checks them separately and larger
 				return []fw.TLCJob{
 					rate, recycle,
-					mcJob("mc:lists:fault", one, `{"Blk", "BlkP", "BlkF", "MUnbl", "Wl", "Query", "Tick", "Unbl", "CleanL"}`, "TRUE", fixAll, strict, tm{2, 3, 2, 2, 3}),
-					// deviation "split clean-up" (scan, then delete): violations only through cleanLive
-					mcJob("mc:clean-split", one, `{"Bad", "Query", "Tick", "CleanScan", "CleanDel", "MUnban"}`, "FALSE", fixAll, "BanHoldsOrKnown BlacklistHolds", tm{2, 3, 2, 2, 4}),
-					mcJob("mc:lists:head", one, lists, "TRUE", fixHead, "BanHolds BlacklistHoldsOrKnown", tm{2, 3, 2, 2, 4}),
 					mcJob("mc:race:as-is", two, race, "FALSE", "{}", asIs, tm{2, 3, 2, 2, 4}),
-					mcJob("mc:race:repaired", two, race, "FALSE", fixAll, strict, tm{2, 3, 2, 2, 4}),
+					// repaired design, plus the deviation "split clean-up" (scan, then delete): with every repair
+					// in place the only excuse BanHoldsOrKnown can still use is cleanLive
+					mcJob("mc:race:repaired+clean-split", two, `{"Bad", "Query", "Tick", "Unban", "MUnban", "CleanScan", "CleanDel"}`, "FALSE", fixAll, "BanHoldsOrKnown BlacklistHolds", tm{2, 3, 2, 2, 4}),
 					mcJob("mc:seq:as-is", one, `{"Bad", "Good", "Query", "Tick", "Unban", "CleanF", "CleanB", "Clean", "MUnban"}`, "FALSE", "{}", asIs, tm{2, 3, 2, 2, 5}),
 					mcJob("mc:lists:as-is", one, lists, "TRUE", "{}", asIs, tm{2, 3, 2, 2, 4}),
-					mcJob("mc:lists:repaired", one, lists, "TRUE", fixAll, strict, tm{2, 3, 2, 2, 4}),
+					mcJob("mc:lists:repaired+fault", one, `{"Blk", "BlkP", "BlkF", "MUnbl", "Wl", "Query", "Tick", "Unbl", "Reload", "CleanL"}`, "TRUE", fixAll, strict, tm{2, 3, 2, 2, 3}),
 				}
 			}
 			full := `{"Bad", "Good", "Query", "Tick", "Unban", "CleanF", "CleanB", "MUnban"}`
@@ -1574,6 +1584,9 @@ func main() {
 				num = "num=" + v
 			}
 			for i, fixed := range []string{"{}", fixAll} {
+				if i == 0 && env.Tier == "quick" {
+					continue // histories of the code before the repairs: thorough tier only
+				}
 				j := genJob(fmt.Sprintf("sim:%d", i), two, actsAll, "FALSE", fixed, `{"end"}`, tm{2, 3, 2, 2, 6})
 				j.Consts["MAXHIST"] = "28"
 				j.Consts["VIEW"] = ""
